@@ -2,7 +2,8 @@
 From Coq Require Import ZArith List Bool.
 From JL.std Require Import GoBase GoFloat GoStrconv GoTime GoVal.
 From JL.gen Require Import CastGen ConvGen.
-From JL.model Require Import CastRun Row RowRun Template.
+From JL.std Require Import GoJson.
+From JL.model Require Import CastRun Row RowRun Template TemplateJson.
 Import ListNotations.
 Open Scope Z_scope.
 
@@ -37,8 +38,18 @@ Record ttr := mktt {
   tt_jfloat : list ((bool * Z) * option str);             (* json.Marshal(float) *)
 }.
 
-Definition enc_of (t : ttr) (s : str) : str := lookup str_eqb s (tt_enc t) [63; 63].
-Definition parse_of (t : ttr) (s : str) : list (str * rv) * bool := lookup str_eqb s (tt_parse t) ([], false).
+(* the text layer is the model's own (JL.std.GoJson); the transcripts of json.Marshal(string) and of the
+   reader's traversal shipped with a case are compared with it (codes 7 and 8) *)
+Definition enc_of (t : ttr) (s : str) : str := encode_string s.
+Definition parse_of (t : ttr) (s : str) : list (str * rv) * bool := parse_top_rv s.
+
+Definition members_eqb (a b : list (str * rv)) : bool :=
+  list_eqb (fun p q => str_eqb (fst p) (fst q) && rv_eqb (norm_rv NF (snd p)) (norm_rv NF (snd q))) a b.
+
+Definition text_layer_mismatch (t : ttr) : list Z :=
+  (if forallb (fun se => str_eqb (encode_string (fst se)) (snd se)) (tt_enc t) then [] else [7])
+  ++ (if forallb (fun te => let '(ms, ok) := parse_top_rv (fst te) in
+                            members_eqb ms (fst (snd te)) && Bool.eqb ok (snd (snd te))) (tt_parse t) then [] else [8]).
 Definition jfloat_of (t : ttr) (is32 : bool) (x : Z) : option str :=
   lookup (fun a b => Bool.eqb (fst a) (fst b) && (snd a =? snd b)) (is32, x) (tt_jfloat t) None.
 
@@ -88,7 +99,11 @@ Fixpoint probes_mismatch (T : ttr) (ti to : template) (i : Z) (ps : list tprobe)
 Definition tcase_mismatch (c : tcase) : list (Z * list Z) :=
   let O := oracles_of (tt_otr (tc_tr c)) in
   match build_template O FUEL (tc_in c) new_template, build_template O FUEL (tc_out c) new_template with
-  | Ok ti, Ok to => probes_mismatch (tc_tr c) ti to 0 (tc_probes c)
+  | Ok ti, Ok to =>
+      match text_layer_mismatch (tc_tr c) with
+      | [] => probes_mismatch (tc_tr c) ti to 0 (tc_probes c)
+      | m => (-2, m) :: probes_mismatch (tc_tr c) ti to 0 (tc_probes c)
+      end
   | _, _ => [(-1, [0])]
   end.
 
